@@ -83,7 +83,11 @@ def conc(model, v):
         raise core.Inconclusive('cannot read float model value %s' % r)
     if isinstance(v, SymDecimal):
         import decimal
-        n = model.eval(v.num, model_completion=True).as_long()
+        if isinstance(v.num, int):
+            n = v.num
+        else:
+            r = model.eval(v.num, model_completion=True)
+            n = r.as_signed_long() if z3.is_bv_value(r) else r.as_long()
         return decimal.Decimal(n).scaleb(-v.scale)
     if isinstance(v, Opaque):
         return '<opaque>'
@@ -183,6 +187,8 @@ class Runner:
                  check_feasibility=True, witness_every=1, solver_name=None, r_axioms=None):
         self.r_axioms = r_axioms
         self.known_matcher = _known_matcher()
+        self.fp_timeout_ms = 600000
+        self.inline = True
         self.res = res
         self.plain = plain
         self.func = func
@@ -198,7 +204,7 @@ class Runner:
 
     def explore(self, body, job_label):
         eng = E.Engine(max_paths=self.max_paths, deadline=self.deadline, float_mode=self.float_mode,
-                       int_bv=self.int_bv, check_feasibility=self.check_feasibility)
+                       int_bv=self.int_bv, check_feasibility=self.check_feasibility, inline=self.inline)
         self.eng = eng
         if self.r_axioms is not None:
             eng.r_axioms = self.r_axioms
@@ -223,7 +229,20 @@ class Runner:
             elif p.exc is not None:
                 fails.append(('unexpected-exception', '%s: %s' % (type(p.exc).__name__, str(p.exc)[:200])))
                 out = self.partial
-            m = eng.model()
+            m = eng.model() if self.float_mode != 'F' else 'skip'
+            fp_mode = False
+            if m == 'skip':
+                # bit-precise mode: the path condition was never checked during exploration; one cvc5 query gives the
+                # reachability verdict and a witness
+                fp_mode = True
+                from symrun import cvc5_backend
+                t0 = time.time()
+                r, m = cvc5_backend.check(list(p.pc), [], self.fp_timeout_ms)
+                res.add_query('cvc5-binary', 1, time.time() - t0)
+                if r == 'unsat':
+                    m = False
+                elif r != 'sat':
+                    m = None
             if m is False:
                 eng.n_paths -= 1
                 p.feasible = False
@@ -234,12 +253,14 @@ class Runner:
             res.reach_sat += 1
             inputs = {k: conc(m, v) for k, v in (out or {}).get('inputs', {}).items()}
             # witness validation: symbolic result under the model == plain library on the concrete input
-            if out and not fails and (p.pid % self.witness_every == 0):
+            if out and not fails and m is not None and (p.pid % self.witness_every == 0):
                 for expr, symval in out.get('observe', []):
                     self._witness(job_label, m, inputs, expr, symval)
             # obligations
             for ob in p.obligations:
                 res.obligations += 1
+                if ob.status is None and not eng.inline:
+                    self._discharge_deferred(ob)
                 if ob.status == 'trivial':
                     res.trivial += 1
                     res.discharged += 1
@@ -296,6 +317,25 @@ class Runner:
         if eng.n_fallback_calls:
             res.add_query('cvc5-binary(fallback after z3 unknown)', eng.n_fallback_calls, 0.0)
         return eng
+
+    def _discharge_deferred(self, ob):
+        """bit-precise obligations: PC & not(prop) as SMT-LIB text to cvc5 (QF_BVFP / UF), z3 as second try"""
+        from symrun import cvc5_backend
+        t = time.time()
+        r, m = cvc5_backend.check(list(ob.pc), [z3.Not(ob.prop)], self.fp_timeout_ms)
+        self.res.add_query('cvc5-binary', 1, time.time() - t)
+        if r == 'unknown':
+            t = time.time()
+            s = z3.Solver()
+            s.set('timeout', self.fp_timeout_ms)
+            for c in ob.pc:
+                s.add(c)
+            s.add(z3.Not(ob.prop))
+            r = str(s.check())
+            m = s.model() if r == 'sat' else None
+            self.res.add_query('z3-%s(after cvc5 unknown)' % z3.get_version_string(), 1, time.time() - t)
+        ob.status = r
+        ob.model = m
 
     def fail(self, label, detail=''):
         self.cur_fails.append((label, detail))
